@@ -138,3 +138,15 @@ prop("C16",
      level_text="Kernel-evaluated theorem: from every reachable state of every operation, once the host is gone every continuation of the container ends in exit (by EOF alone); extracted-code theorems: every blocking select of the container has the done alternative, Pdeathsig=SIGKILL, PTRACE_O_EXITKILL; a real controller process is SIGKILLed at each announced protocol point and at random instants and the pid namespace / process group must be empty within the bound",
      level_note="PARTIAL: kernel delivery laws assumed. Trusted: Lean kernel, hand protocol model (tied by C10's trace inclusion), extractor",
      technique="Lean 4 exhaustive crash-point exploration (decide +kernel) + extracted-code facts + crash-point enumeration against real processes")
+
+prop("C12",
+     trusted_base=["Kernel/Proc.lean: a pid namespace's process forest for reaping (kill(-1) from init kills every other process; orphans are reparented to init; wait4(-1) loop until ECHILD)",
+                   "extracted facts (Gen.C12): every path through handleExecveStarted (sequence of calls/sends), the defers of handleExecve, the close-after-send in the container's sendLoop"],
+     assumptions=["kernel reaping/reparenting rules as modelled; SIGKILL cannot be ignored",
+                  "ptrace runner: the caller's policy refuses setsid/setpgid (stated in the property); the harness uses such a policy",
+                  "descriptor, child and goroutine counts of the host and of the init are explored by the harness over histories, not proved"],
+     not_covered="the Go runtime's goroutine lifetimes are only observed (NumGoroutine back at baseline)",
+     level_text="Theorem for every process forest (any depth, fan-out, orphans): after init's kill(-1,SIGKILL) and the wait-until-ECHILD loop no child of init remains; extracted-code theorem that every path of a started Execve issues the kill and the wait-all request and that received/opened descriptors are closed; soak over histories of hostile programs in all three runners with descriptor/child/goroutine baselines of the host and of the container init",
+     level_note="PARTIAL: proof about the model's reaping handshake + exploration for the runtime counts. Trusted: Lean kernel, process-forest model, extractor",
+     technique="Lean 4 proof by induction over process forests + extracted-code path facts + soak exploration",
+     timeout={"quick": 1500, "thorough": 7200})
